@@ -213,6 +213,13 @@ package handler
 //@ ensures[C07] ReadableWF(message)
 //@ ensures[C15] message.RawData == old(message.RawData) && message.MessageType == old(message.MessageType) && message.LogLevel == old(message.LogLevel)
 //@ ensures[C15] old(message.Readable) != nil ==> *message == old(*message)
+// a message that has not been analysed yet is analysed, whatever else it carries (an error text from the
+// time conversion, for instance): the acceptance clauses of Analyse carry over
+//@ ensures[C04] old(message.Readable == nil && message.MessageType == bits(message.RawData, 24, 12) && WFMSM4(message.RawData)) ==> typeis(message.Readable, "*github.com/goblimey/go-ntrip/rtcm/type_msm4/message.Message") && unbox(message.Readable) != 0
+//@ ensures[C04] old(message.Readable == nil && message.MessageType == bits(message.RawData, 24, 12) && WFMSM7(message.RawData)) ==> typeis(message.Readable, "*github.com/goblimey/go-ntrip/rtcm/type_msm7/message.Message") && unbox(message.Readable) != 0
+//@ ensures[C05] old(message.Readable == nil && message.MessageType == 1005 && bits(message.RawData, 24, 12) == 1005 && 8*len(message.RawData) - 48 >= 152) ==> typeis(message.Readable, "*github.com/goblimey/go-ntrip/rtcm/type1005.Message") && unbox(message.Readable) != 0
+//@ ensures[C05] old(message.Readable == nil && message.MessageType == 1006 && bits(message.RawData, 24, 12) == 1006 && 8*len(message.RawData) - 48 >= 168) ==> typeis(message.Readable, "*github.com/goblimey/go-ntrip/rtcm/type1006.Message") && unbox(message.Readable) != 0
+//@ ensures[C04,C05] result == message.Readable
 
 // a copy shares nothing with the original: what one consumer does to its copy cannot reach another
 //@ func (*Message).Copy
